@@ -380,7 +380,30 @@ func runTile(s tst, W, H, shrink, border int) {
 		filled := orig.TextStyling != nil && orig.TextStyling.TextFont != nil && orig.TextStyling.TitleFont != nil && orig.Scale != nil
 		kept := proto.Equal(orig, want)
 		r2 := render(orig, W, H, shrink, border) // same object again (now with filled sub-messages)
-		r3 := render(cp, W, H, shrink, border)   // deep copy of the original argument
+		// whatever the library put into the caller's object belongs to the caller, who may write to it
+		// (seed C18-13: absent sub-messages filled with package-level stand-ins instead of fresh
+		// allocations - harmless until someone assigns through one of them); scribble over exactly the
+		// sub-messages that were absent before the first call, then render the untouched deep copy
+		scribbleFont := func(f *rwp.HWCText_TextStyle_Font) {
+			if f != nil {
+				f.FontFace, f.TextHeight, f.TextWidth = 1, 2, 3
+			}
+		}
+		if cp.Scale == nil && orig.Scale != nil {
+			orig.Scale.ScaleType, orig.Scale.RangeLow, orig.Scale.RangeHigh, orig.Scale.LimitLow, orig.Scale.LimitHigh = 1, -5, 2000, 3, 1500
+		}
+		if orig.TextStyling != nil {
+			if cp.TextStyling == nil {
+				orig.TextStyling.FixedWidth, orig.TextStyling.TitleBarPadding, orig.TextStyling.ExtraCharacterSpacing, orig.TextStyling.UnformattedFontSize = true, 3, 2, 3
+			}
+			if cp.TextStyling == nil || cp.TextStyling.TextFont == nil {
+				scribbleFont(orig.TextStyling.TextFont)
+			}
+			if cp.TextStyling == nil || cp.TextStyling.TitleFont == nil {
+				scribbleFont(orig.TextStyling.TitleFont)
+			}
+		}
+		r3 := render(cp, W, H, shrink, border) // deep copy of the original argument
 		var rgb Sx = Sym("skip")
 		if W*H <= 1024 {
 			rgb = append([]byte{}, r1.img.GetImgSliceRGB()...)
